@@ -56,9 +56,9 @@ CHARLISTS = [s(""), s("a"), s("abc"), s("héllo"), s("12"), s("-5"), s("1.5"), s
              s("\U0001f600"), s("x" * 300), s(" "), s("0x10"), s("é"), s("1e5")]
 BYTES = ["b0", "b7", "bff"]
 BYTELISTS = [y([]), y([7]), y([1, 2, 3]), y([1, 2, 3, 4]), y([1, 2, 3, 4, 5]), y([255] * 4), y([0xc3]), y([0xc3, 0xa9]), y(list(range(256)))]
-SYMBOLS = [k("a"), k("b"), k(""), k("é"), k("zzz"), k("a b")]
+SYMBOLS = [k("a"), k("b"), k(""), k("é"), k("zzz"), k("a b"), "K4d2", "Kffffffffffffffff"]
 SYMLISTS = ["Y(%s,%s)" % (k("a"), k("b")), "Y(Y(%s,%s),%s)" % (k("a"), k("b"), k("c")), "Y(%s,%s)" % (k("a"), i(1)),
-            "Y(%s,%s)" % (i(1), k("a")), "Y(%s,%s)" % (k("a"), f(1.5)), "Y(%s,%s)" % (k("a"), i(-1)), "Y(%s,%s)" % (k("é"), k(""))]
+            "Y(%s,%s)" % (i(1), k("a")), "Y(%s,%s)" % (k("a"), f(1.5)), "Y(%s,%s)" % (k("a"), i(-1)), "Y(%s,%s)" % (k("é"), k("")), "Y(K1,K2)"]
 PAIRS = ["P(%s,%s)" % (k("a"), i(1)), "P(%s,%s)" % (i(3), i(4)), "P(%s,P(%s,%s))" % (k("a"), k("b"), i(1)), "P(u,u)",
          "P(%s,L(%s,%s))" % (k("a"), i(1), i(2))]
 L123 = "L(%s,%s,%s)" % (i(1), i(2), i(3))
@@ -195,7 +195,7 @@ def op_cases(tier, rng):
         for imp in impls:
             cases.append("O %s A %s - -" % (imp, op))
     for op in WITH_DATA:
-        for d in (0, 1, 2, 3, 99):
+        for d in (0, 1, 2, 3, 99, 4294967296, 18446744073709551615):
             for v in small + ["-"]:
                 for imp in impls:
                     cases.append("O %s A %s:%d %s %s" % (imp, op, d, v, v))
@@ -487,6 +487,13 @@ def program_cases(tier, rng):
         "(lst ~ (0..1)) ~# (,)", "zzz ~ 1", "(1 2 3) ~ :a.b", "(:a = (:b = 1,),) ~ :a.b", "(:a = (:b = 1,),) ~ :a.0", "(:a = (:b = 1,),) ~ :a.(0-1)",
         "5 ;; 6", "1\n\n2", "$ ?> 1 |> 2", "$! ?> 1 |> $! ?> 2", "5 ?> ( )", "( )", "{^~ $} ~ 1",
     ]
+    # the repository's own script corpus
+    import glob
+    for path in sorted(glob.glob("/repo/tests/scripts/**/*.garnish", recursive=True)):
+        try:
+            progs.append(open(path, encoding="utf-8").read())
+        except OSError:
+            pass
     n_rand = 60000 if tier == "thorough" else 6000
     for _ in range(n_rand):
         e = gen_expr(rng, rng.randint(1, 4))
